@@ -13,32 +13,38 @@ import (
 func cmdSelftest() {
 	fail := false
 	// 1. solver round trip: sat, unsat, model values
-	s, err := NewSolver("z3", 5000)
-	if err != nil {
-		fmt.Println("selftest: cannot start z3:", err)
-		os.Exit(1)
-	}
 	x := mkSym(8, 0)
 	y := mkSym(64, 1)
-	s.Push()
-	s.Assert(mkBin(OpEq, mkBin(OpAdd, x, mkConst(8, 250)), mkConst(8, 3)))
-	s.Assert(mkBin(OpEq, mkBin(OpMul, y, mkConst(64, 3)), mkConst(64, 21)))
-	if r := s.Check(); r != Sat {
-		fmt.Println("selftest: expected sat, got", r)
-		fail = true
-	} else {
-		vals, err := s.Values(map[int]uint8{0: 8, 1: 64})
-		if err != nil || vals[0] != 9 || (vals[1]*3) != 21 {
-			fmt.Println("selftest: bad model", vals, err)
+	for _, sn := range []string{defaultSolver, "z3"} {
+		s, err := NewSolver(sn, 5000)
+		if err != nil {
+			fmt.Println("selftest: cannot start", sn, ":", err)
+			os.Exit(1)
+		}
+		s.Push()
+		s.Assert(mkBin(OpEq, mkBin(OpAdd, x, mkConst(8, 250)), mkConst(8, 3)))
+		s.Assert(mkBin(OpEq, mkBin(OpMul, y, mkConst(64, 3)), mkConst(64, 21)))
+		if r := s.Check(); r != Sat {
+			fmt.Println("selftest:", sn, "expected sat, got", r)
+			fail = true
+		} else {
+			vals, err := s.Values(map[int]uint8{0: 8, 1: 64})
+			if err != nil || vals[0] != 9 || (vals[1]*3) != 21 {
+				fmt.Println("selftest:", sn, "bad model", vals, err)
+				fail = true
+			}
+		}
+		if r := s.CheckWith(mkBin(OpUlt, x, mkConst(8, 9))); r != Unsat {
+			fmt.Println("selftest:", sn, "expected unsat, got", r)
 			fail = true
 		}
+		s.Pop()
+		if len(s.Errors) > 0 {
+			fmt.Println("selftest:", sn, "solver errors", s.Errors)
+			fail = true
+		}
+		s.Close()
 	}
-	if r := s.CheckWith(mkBin(OpUlt, x, mkConst(8, 9))); r != Unsat {
-		fmt.Println("selftest: expected unsat, got", r)
-		fail = true
-	}
-	s.Pop()
-	s.Close()
 	// 2. term evaluation agrees with constant folding on a sample of operators
 	env := &evalEnv{gen: newEvalGen(), get: func(id int, w uint8) uint64 { return 0xF3 }}
 	for _, op := range []Op{OpAdd, OpSub, OpMul, OpUDiv, OpSDiv, OpURem, OpSRem, OpAnd, OpOr, OpXor, OpShl, OpLShr, OpAShr, OpEq, OpUlt, OpSlt, OpUle, OpSle} {
